@@ -1,0 +1,579 @@
+// Copyright 2025 The Go Authors. All rights reserved.
+// Use of this source code is governed by a BSD-style
+// license that can be found in the LICENSE file.
+
+//go:build verif
+
+package http3
+
+import "io"
+
+// Contracts, spec functions and lemma harnesses for the deductive verifier in /verif (govc).
+// This file is compiled only with -tags verif; it adds no behaviour to the package.
+
+// ---------------------------------------------------------------------------
+// Frame-limit state machine of the stream wrapper (stream.go; property C35).
+//
+// st.lim < 0: not inside a frame. st.lim >= 0: inside a frame with exactly st.lim payload bytes
+// not yet consumed. st.stream is set to nil by an over-read so that any later read panics; the
+// contracts therefore carry st.stream != nil as pre- and (on success) postcondition.
+
+//@ func (*stream).recordBytesRead(st, n) (err)
+//@   requires st != nil && n >= 0
+//@   ensures  old(st.lim) < 0 ==> err == nil && st.lim == old(st.lim) && st.stream == old(st.stream)
+//@   ensures  old(st.lim) >= 0 && int64(n) <= old(st.lim) ==> err == nil && st.lim == old(st.lim) - int64(n) && st.stream == old(st.stream)
+//@   ensures  old(st.lim) >= 0 && int64(n) > old(st.lim) ==> isH3FrameErrorConn(err) && st.stream == nil && st.lim < 0
+//@   modifies st.lim, st.stream
+//@   allocates
+
+//@ func (*stream).endFrame(st) (err)
+//@   requires st != nil
+//@   ensures  err == nil <==> old(st.lim) == 0
+//@   ensures  err == nil ==> st.lim == -1
+//@   ensures  err != nil ==> isH3FrameErrorConn(err) && st.lim == old(st.lim)
+//@   modifies st.lim
+//@   allocates
+
+// isH3FrameErrorConn: err is a connection error carrying H3_FRAME_ERROR.
+//
+//@ pure
+func isH3FrameErrorConn(err error) bool {
+	ce, ok := err.(*connectionError)
+	return ok && ce != nil && ce.code == errH3FrameError
+}
+
+// varintLenAt / varintAt: length and value of the QUIC variable-length integer (RFC 9000 section
+// 16) that starts at b[off]; the two top bits of the first byte select 1, 2, 4 or 8 bytes.
+//
+//@ pure
+func varintLenAt(b []byte, off int) int { return 1 << (b[off] >> 6) }
+
+//@ pure
+func varintAt(b []byte, off int) int64 {
+	v := int64(b[off] & 0x3f)
+	switch b[off] >> 6 {
+	case 0:
+		return v
+	case 1:
+		return v<<8 | int64(b[off+1])
+	case 2:
+		return v<<24 | int64(b[off+1])<<16 | int64(b[off+2])<<8 | int64(b[off+3])
+	}
+	return v<<56 | int64(b[off+1])<<48 | int64(b[off+2])<<40 | int64(b[off+3])<<32 | int64(b[off+4])<<24 | int64(b[off+5])<<16 | int64(b[off+6])<<8 | int64(b[off+7])
+}
+
+// readVarint consumes 1, 2, 4 or 8 bytes and charges them to the current frame.
+//
+//@ func (*stream).readVarint(st) (v, err)
+//@   requires st != nil && st.stream != nil
+//@   ensures  err == nil ==> 0 <= v && v <= 1<<62 - 1 && st.stream == old(st.stream)
+//@   ensures  old(st.lim) < 0 ==> st.lim == old(st.lim)
+//@   ensures  err == nil && old(st.lim) >= 0 ==> 0 <= st.lim && st.lim < old(st.lim) && (old(st.lim) - st.lim == 1 || old(st.lim) - st.lim == 2 || old(st.lim) - st.lim == 4 || old(st.lim) - st.lim == 8)
+//@   ensures  err != nil ==> st.stream == old(st.stream) || (st.stream == nil && isH3FrameErrorConn(err))
+//@   ensures  old(st.lim) < 0 ==> st.stream == old(st.stream)
+//@   loop 1 unroll 8
+//@   modifies st.lim, st.stream, st.stream.inbuf, st.stream.inbufoff
+//@   allocates
+
+// readFrameHeader: refuses to start a frame inside a frame; on success the limit is the frame
+// length just read (a 62-bit varint, so never negative) and the type/length bytes themselves are
+// not charged to any frame.
+//
+//@ func (*stream).readFrameHeader(st) (ftype, err)
+//@   requires st != nil && st.stream != nil
+//@   ensures  old(st.lim) >= 0 ==> isBareErr(err, errH3FrameError) && st.lim == old(st.lim)
+//@   ensures  err == nil ==> old(st.lim) < 0 && 0 <= st.lim && st.lim <= 1<<62 - 1
+//@   ensures  err != nil ==> st.lim == old(st.lim)
+//@   ensures  st.stream == old(st.stream)
+//@   modifies st.lim, st.stream, st.stream.inbuf, st.stream.inbufoff
+//@   allocates
+
+// ReadByte: one byte is charged to the current frame before it is read. Inside a frame with no
+// payload left this is an over-read: connection error H3_FRAME_ERROR, the QUIC stream is dropped
+// and no byte is consumed. End of stream inside a frame is H3_FRAME_ERROR, never io.EOF.
+//
+//@ func (*stream).ReadByte(st) (b, err)
+//@   requires st != nil && st.stream != nil
+//@   ensures  old(st.lim) < 0 ==> st.lim == old(st.lim) && st.stream == old(st.stream) && (err == nil || err == io.EOF || isBareErr(err, errH3FrameError))
+//@   ensures  old(st.lim) > 0 ==> st.lim == old(st.lim) - 1 && st.stream == old(st.stream) && (err == nil || isBareErr(err, errH3FrameError))
+//@   ensures  old(st.lim) == 0 ==> isH3FrameErrorConn(err) && st.stream == nil && st.lim < 0 && unchanged(old(st.stream).inbufoff)
+//@   ensures  err != nil ==> b == 0
+//@   ensures  old(st.lim) != 0 && old(len(st.stream.inbuf) > st.stream.inbufoff) ==> err == nil && b == old(st.stream.inbuf[st.stream.inbufoff]) && st.stream.inbufoff == old(st.stream.inbufoff) + 1 && unchanged(st.stream.inbuf)
+//@   modifies st.lim, st.stream, st.stream.inbuf, st.stream.inbufoff
+//@   allocates
+
+// isBareErr: err is the plain error-code value code (type http3Error).
+//
+//@ pure
+func isBareErr(err error, code http3Error) bool {
+	e, ok := err.(http3Error)
+	return ok && e == code
+}
+
+// isStreamErr: err is a stream error carrying code.
+//
+//@ pure
+func isStreamErr(err error, code http3Error) bool {
+	se, ok := err.(*streamError)
+	return ok && se != nil && se.code == code
+}
+
+// ---------------------------------------------------------------------------
+// QPACK prefixed integers (RFC 9204 section 4.1.1 = RFC 7541 section 5.1; property C33).
+//
+// The continuation bytes are produced by encoding/binary.AppendUvarint and consumed by
+// encoding/binary.ReadUvarint; both bodies are executed symbolically (complete unrolling, see
+// /verif/stdlib/h3.contracts), they are not assumed.
+
+// prefixMask is 2^n-1, the largest value of an n-bit prefix (n in 1..8).
+//
+//@ pure
+func prefixMask(n uint8) uint64 { return uint64(1)<<n - 1 }
+
+// uvarintEncLen / uvarintEncByte: length and k-th byte of the base-128 little-endian encoding of u
+// (7 value bits per byte, top bit set on every byte but the last).
+//
+//@ pure
+func uvarintEncLen(u uint64) int {
+	switch {
+	case u < 1<<7:
+		return 1
+	case u < 1<<14:
+		return 2
+	case u < 1<<21:
+		return 3
+	case u < 1<<28:
+		return 4
+	case u < 1<<35:
+		return 5
+	case u < 1<<42:
+		return 6
+	case u < 1<<49:
+		return 7
+	case u < 1<<56:
+		return 8
+	case u < 1<<63:
+		return 9
+	}
+	return 10
+}
+
+//@ pure
+func uvarintEncByte(u uint64, k int) byte {
+	b := byte(u>>(7*uint(k))) & 0x7f
+	if u>>(7*uint(k+1)) != 0 {
+		b |= 0x80
+	}
+	return b
+}
+
+// appendPrefixedInt: the bytes before are kept; the first new byte carries the caller's flag bits
+// and min(i, 2^n-1) in the prefix; a value that does not fit the prefix is followed by the
+// base-128 encoding of i-(2^n-1), byte for byte.
+//
+//@ func appendPrefixedInt(b, firstByte, prefixLen, i) (out)
+//@   requires 1 <= prefixLen && prefixLen <= 8 && i >= 0 && uint64(firstByte) & prefixMask(prefixLen) == 0
+//@   ensures  samebase(out, b) || fresh(out)
+//@   ensures  forall k int :: 0 <= k && k < len(b) ==> out[k] == old(b[k])
+//@   ensures  uint64(i) < prefixMask(prefixLen) ==> len(out) == len(b) + 1 && out[len(b)] == firstByte | byte(i)
+//@   ensures  uint64(i) >= prefixMask(prefixLen) ==> len(out) == len(b) + 1 + uvarintEncLen(uint64(i) - prefixMask(prefixLen)) && out[len(b)] == firstByte | byte(prefixMask(prefixLen))
+//@   modifies spare(b)
+//@   allocates
+
+// readPrefixedIntWithByte: a value that fits the prefix is returned without touching the stream;
+// otherwise up to ten continuation bytes are read (each charged to the current frame). Every
+// failure (stream error, end of data, more than 64 bits, result above MaxInt64) is reported as
+// QPACK_DECOMPRESSION_FAILED with value 0; a successful result is never negative.
+//
+//@ func (*stream).readPrefixedIntWithByte(st, firstByte, prefixLen) (v, err)
+//@   requires st != nil && st.stream != nil && 1 <= prefixLen && prefixLen <= 8
+//@   ensures  uint64(firstByte) & prefixMask(prefixLen) != prefixMask(prefixLen) ==> err == nil && v == int64(uint64(firstByte) & prefixMask(prefixLen)) && st.lim == old(st.lim) && unchanged(st.stream.inbufoff) && unchanged(st.stream.inbuf)
+//@   ensures  err == nil ==> v >= 0 && st.stream == old(st.stream) && (old(st.lim) < 0 ==> st.lim == old(st.lim)) && (old(st.lim) >= 0 ==> 0 <= st.lim && st.lim <= old(st.lim))
+//@   ensures  err != nil ==> isBareErr(err, errQPACKDecompressionFailed) && v == 0
+//@   modifies st.lim, st.stream, st.stream.inbuf, st.stream.inbufoff
+//@   allocates
+
+// lemmaQpackIntRoundTrip: for every prefix width 1..8, every flag pattern above the prefix and
+// every value 0 <= i <= MaxInt64: appendPrefixedInt writes the integer into the memory the QUIC
+// stream delivers next (dst is the spare room of the stream's receive buffer, directly in front of
+// the read position, so the bytes written are physically the bytes read back - no byte-level spec
+// in between); readPrefixedIntWithByte applied to the first byte written then returns i without
+// error, consumes exactly the continuation bytes written, charges exactly that many bytes to the
+// current frame, and the flag bits of the first byte are the caller's.
+//
+//@ lemma
+//@ usebody appendPrefixedInt, readPrefixedIntWithByte
+//@ requires st != nil && st.stream != nil && 1 <= prefixLen && prefixLen <= 8 && i >= 0 && uint64(firstByte) & prefixMask(prefixLen) == 0
+//@ requires st.lim < 0 || st.lim >= 10
+//@ requires len(dst) == 0 && cap(dst) >= 11 && samebase(dst, st.stream.inbuf) && st.stream.inbufoff >= 1 && startoff(dst) + 1 == startoff(st.stream.inbuf) + st.stream.inbufoff
+//@ requires len(st.stream.inbuf) - st.stream.inbufoff >= 10 && len(st.stream.inbuf) <= 1<<40
+//@ cases uint64(i) < prefixMask(prefixLen) else uint64(i)-prefixMask(prefixLen) < 1<<7 else uint64(i)-prefixMask(prefixLen) < 1<<14 else uint64(i)-prefixMask(prefixLen) < 1<<21 else uint64(i)-prefixMask(prefixLen) < 1<<28 else uint64(i)-prefixMask(prefixLen) < 1<<35 else uint64(i)-prefixMask(prefixLen) < 1<<42 else uint64(i)-prefixMask(prefixLen) < 1<<49 else uint64(i)-prefixMask(prefixLen) < 1<<56
+//@ ensures err == nil && v == i
+//@ ensures len(b) >= 1 && uint64(b[0]) &^ prefixMask(prefixLen) == uint64(firstByte) && samebase(b, dst)
+//@ ensures st.stream.inbufoff == old(st.stream.inbufoff) + len(b) - 1
+//@ ensures old(st.lim) >= 0 ==> st.lim == old(st.lim) - int64(len(b) - 1)
+//@ ensures old(st.lim) < 0 ==> st.lim == old(st.lim)
+//@ modifies st.lim, st.stream, st.stream.inbuf, st.stream.inbufoff, spare(dst)
+//@ allocates
+func lemmaQpackIntRoundTrip(st *stream, dst []byte, firstByte byte, prefixLen uint8, i int64) (b []byte, v int64, err error) {
+	b = appendPrefixedInt(dst, firstByte, prefixLen, i)
+	v, err = st.readPrefixedIntWithByte(b[0], prefixLen)
+	return b, v, err
+}
+
+// ---------------------------------------------------------------------------
+// Frame-limit state machine, continued (property C35).
+
+// Read: the bytes the QUIC stream returned are charged to the current frame. Inside a frame a
+// successful read leaves lim = old lim - n >= 0; reading more than the frame holds is the
+// connection error H3_FRAME_ERROR (stream dropped, nothing returned), which cannot happen when the
+// caller clips the buffer to lim; end of stream is reported as io.EOF only outside a frame, as
+// success (n bytes) exactly at the end of a frame, and as H3_FRAME_ERROR inside one.
+//
+//@ func (*stream).Read(st, b) (n, err)
+//@   requires st != nil && st.stream != nil
+//@   ensures  0 <= n && n <= len(b)
+//@   ensures  old(st.lim) < 0 ==> st.lim == old(st.lim) && st.stream == old(st.stream)
+//@   ensures  old(st.lim) >= 0 && err == nil ==> st.lim == old(st.lim) - int64(n) && st.lim >= 0 && st.stream == old(st.stream)
+//@   ensures  old(st.lim) >= 0 && int64(len(b)) <= old(st.lim) ==> st.stream == old(st.stream) && 0 <= st.lim && st.lim <= old(st.lim)
+//@   ensures  err != nil && old(st.lim) >= 0 ==> n == 0 && (isBareErr(err, errH3FrameError) || (isH3FrameErrorConn(err) && st.stream == nil && int64(len(b)) > old(st.lim)))
+//@   ensures  err != nil && old(st.lim) < 0 ==> err == io.EOF || (n == 0 && isBareErr(err, errH3FrameError))
+//@   ghost qeof += 1 after call Read when $r1 == io.EOF
+//@   ensures  ghost(qeof) > 0 && st.lim > 0 ==> err != nil
+//@   modifies st.lim, st.stream, st.stream.inbuf, st.stream.inbufoff, elems(b)
+//@   allocates
+
+// knownFrameType: the seven frame types RFC 9114 defines (and this package names).
+//
+//@ pure
+func knownFrameType(t frameType) bool {
+	return t == frameTypeData || t == frameTypeHeaders || t == frameTypeCancelPush || t == frameTypeSettings ||
+		t == frameTypePushPromise || t == frameTypeGoaway || t == frameTypeMaxPushID
+}
+
+// isConnErr: err is a connection error carrying code.
+//
+//@ pure
+func isConnErr(err error, code http3Error) bool {
+	ce, ok := err.(*connectionError)
+	return ok && ce != nil && ce.code == code
+}
+
+// discardFrame: success leaves the stream outside any frame; a read error while discarding is a
+// stream error H3_FRAME_ERROR and the frame stays open. The discarded bytes are read from the QUIC
+// stream directly (they are not charged through recordBytesRead), one ReadByte per remaining
+// payload byte.
+//
+//@ func (*stream).discardFrame(st) (err)
+//@   requires st != nil && st.stream != nil
+//@   ensures  err == nil ==> st.lim == -1
+//@   ensures  err != nil ==> isStreamErr(err, errH3FrameError) && st.lim == old(st.lim) && old(st.lim) > 0
+//@   ensures  st.stream == old(st.stream)
+//@   loop 1 invariant st.stream == old(st.stream) && st.lim == old(st.lim) && st.stream != nil
+//@   loop 1 modifies st.stream.inbuf, st.stream.inbufoff
+//@   modifies st.lim, st.stream.inbuf, st.stream.inbufoff
+//@   allocates
+
+// discardUnknownFrame: a frame type this package knows is never skipped (connection error
+// H3_FRAME_UNEXPECTED, nothing consumed, frame left open); every other type is discarded.
+//
+//@ func (*stream).discardUnknownFrame(st, ftype) (err)
+//@   requires st != nil && st.stream != nil
+//@   ensures  knownFrameType(ftype) ==> isConnErr(err, errH3FrameUnexpected) && st.lim == old(st.lim) && unchanged(st.stream.inbufoff) && unchanged(st.stream.inbuf)
+//@   ensures  !knownFrameType(ftype) && err == nil ==> st.lim == -1
+//@   ensures  !knownFrameType(ftype) && err != nil ==> isStreamErr(err, errH3FrameError) && st.lim == old(st.lim)
+//@   ensures  st.stream == old(st.stream)
+//@   modifies st.lim, st.stream.inbuf, st.stream.inbufoff
+//@   allocates
+
+// ---------------------------------------------------------------------------
+// QPACK strings and field line representations (property C33).
+
+// readPrefixedStringWithByte: inside a frame a declared string length above the bytes left in the
+// frame is rejected before anything is allocated or read; the string bytes are read with
+// io.ReadFull (body executed) and charged to the frame; every failure is QPACK_DECOMPRESSION_FAILED.
+// `partial nopanic`: the run-time panic obligations of this one function are assumed, NOT proved -
+// make([]byte, size) panics (makeslice: len out of range) for a declared length above the
+// allocator's limit, which a frame header claiming up to 2^62-1 bytes permits (reported finding).
+// Preconditions of the callees (non-nil QUIC stream at every read) are still proved.
+//
+//@ func (*stream).readPrefixedStringWithByte(st, firstByte, prefixLen) (s, err)
+//@   requires st != nil && st.stream != nil && 1 <= prefixLen && prefixLen <= 7
+//@   ensures  err != nil ==> isBareErr(err, errQPACKDecompressionFailed) && len(s) == 0
+//@   ensures  err == nil ==> st.stream == old(st.stream) && (old(st.lim) < 0 ==> st.lim == old(st.lim)) && (old(st.lim) >= 0 ==> 0 <= st.lim && st.lim <= old(st.lim))
+//@   ensures  err == nil && old(st.lim) >= 0 && uint64(firstByte) & (uint64(1) << prefixLen) == 0 ==> int64(len(s)) <= old(st.lim)
+//@   partial nopanic
+//@   modifies st.lim, st.stream, st.stream.inbuf, st.stream.inbufoff
+//@   allocates
+
+//@ func (*stream).readPrefixedInt(st, prefixLen) (firstByte, v, err)
+//@   requires st != nil && st.stream != nil && 1 <= prefixLen && prefixLen <= 8
+//@   ensures  err == nil ==> v >= 0 && st.stream == old(st.stream) && (old(st.lim) < 0 ==> st.lim == old(st.lim)) && (old(st.lim) >= 0 ==> 0 <= st.lim && st.lim < old(st.lim))
+//@   ensures  err == nil && uint64(firstByte) & prefixMask(prefixLen) != prefixMask(prefixLen) ==> v == int64(uint64(firstByte) & prefixMask(prefixLen))
+//@   ensures  err != nil ==> isBareErr(err, errQPACKDecompressionFailed) && v == 0
+//@   modifies st.lim, st.stream, st.stream.inbuf, st.stream.inbufoff
+//@   allocates
+//@
+//@ func (*stream).readPrefixedString(st, prefixLen) (firstByte, s, err)
+//@   requires st != nil && st.stream != nil && 1 <= prefixLen && prefixLen <= 7
+//@   ensures  err == nil ==> st.stream == old(st.stream) && (old(st.lim) < 0 ==> st.lim == old(st.lim)) && (old(st.lim) >= 0 ==> 0 <= st.lim && st.lim < old(st.lim))
+//@   ensures  err != nil ==> isBareErr(err, errQPACKDecompressionFailed) && len(s) == 0
+//@   modifies st.lim, st.stream, st.stream.inbuf, st.stream.inbufoff
+//@   allocates
+
+// staticTableEntry: exactly the indices 0..98 of the RFC 9204 Appendix A table are accepted.
+//
+//@ func staticTableEntry(index) (ent, err)
+//@   ensures  err == nil <==> (0 <= index && index < 99)
+//@   ensures  err != nil ==> isBareErr(err, errQPACKDecompressionFailed)
+//@   ensures  err == nil ==> ent.name == staticTableEntries[index].name && ent.value == staticTableEntries[index].value
+
+// The T and N bits: tbit/nbit write the bit for the static table / never-indexed and nothing for
+// dynamic / may-index; tableTypeForTbit/indexTypeForNBit read them back.
+//
+//@ lemma
+//@ requires bit != 0
+//@ ensures ok
+func lemmaTNBits(bit byte) (ok bool) {
+	return tableTypeForTbit(tableType(staticTable).tbit(bit)) == staticTable &&
+		tableTypeForTbit(tableType(dynamicTable).tbit(bit)) == dynamicTable &&
+		indexTypeForNBit(indexType(neverIndex).nbit(bit)) == neverIndex &&
+		indexTypeForNBit(indexType(mayIndex).nbit(bit)) == mayIndex &&
+		tableType(staticTable).tbit(bit) == bit && indexType(neverIndex).nbit(bit) == bit &&
+		tableType(dynamicTable).tbit(bit) == 0 && indexType(mayIndex).nbit(bit) == 0
+}
+
+// Decoders of the three field line representations. A reference to the dynamic table (T bit
+// clear) is an error; a static index outside the table is QPACK_DECOMPRESSION_FAILED; the
+// never-indexed flag returned is the N bit of the first byte.
+//
+//@ func (*stream).decodeIndexedFieldLine(st, b) (itype, name, value, err)
+//@   requires st != nil && st.stream != nil
+//@   ensures  b & 0x40 == 0 ==> err != nil
+//@   ensures  err == nil ==> itype == mayIndex && st.stream == old(st.stream) && (old(st.lim) < 0 ==> st.lim == old(st.lim)) && (old(st.lim) >= 0 ==> 0 <= st.lim && st.lim <= old(st.lim))
+//@   ensures  err == nil && b & 0x3f != 0x3f ==> name == staticTableEntries[b & 0x3f].name && value == staticTableEntries[b & 0x3f].value
+//@   ensures  err != nil ==> len(name) == 0 && len(value) == 0
+//@   modifies st.lim, st.stream, st.stream.inbuf, st.stream.inbufoff
+//@   allocates
+//@
+//@ func (*stream).decodeLiteralFieldLineWithNameReference(st, b) (itype, name, value, err)
+//@   requires st != nil && st.stream != nil
+//@   ensures  b & 0x10 == 0 ==> err != nil
+//@   ensures  err == nil ==> (itype == neverIndex <==> b & 0x20 != 0) && (itype == mayIndex <==> b & 0x20 == 0)
+//@   ensures  err == nil ==> st.stream == old(st.stream) && (old(st.lim) < 0 ==> st.lim == old(st.lim)) && (old(st.lim) >= 0 ==> 0 <= st.lim && st.lim <= old(st.lim))
+//@   ensures  err == nil && b & 0x0f != 0x0f ==> name == staticTableEntries[b & 0x0f].name
+//@   ensures  err != nil ==> len(name) == 0 && len(value) == 0
+//@   modifies st.lim, st.stream, st.stream.inbuf, st.stream.inbufoff
+//@   allocates
+//@
+//@ func (*stream).decodeLiteralFieldLineWithLiteralName(st, b) (itype, name, value, err)
+//@   requires st != nil && st.stream != nil
+//@   ensures  err == nil ==> (itype == neverIndex <==> b & 0x10 != 0) && (itype == mayIndex <==> b & 0x10 == 0)
+//@   ensures  err == nil ==> st.stream == old(st.stream) && (old(st.lim) < 0 ==> st.lim == old(st.lim)) && (old(st.lim) >= 0 ==> 0 <= st.lim && st.lim <= old(st.lim))
+//@   ensures  err != nil ==> len(name) == 0 && len(value) == 0
+//@   modifies st.lim, st.stream, st.stream.inbuf, st.stream.inbufoff
+//@   allocates
+
+// decode: the field section decoder. For arbitrary stream contents: every call of the callback f
+// (call-site assertions, i.e. proved at the call, for every iteration) happens only when the
+// Required Insert Count read was 0, for a representation that references the static table only
+// (indexed with T=1, literal with static name reference T=1, or literal with literal name -
+// dynamic-table and post-base forms never reach f), with a non-empty name, with the never-indexed
+// flag equal to the N bit on the wire, and never with a pseudo-header after a regular field was
+// passed: at every call a pseudo-header name implies the flag sawNonPseudo is clear, a regular name
+// implies it is set, and the loop step clause proves the flag is never cleared again (ghost
+// counters are not updated at calls through function values, so the history is carried by the
+// code's own flag plus these three facts). On success
+// the QUIC stream is kept and a frame entered with limit >= 0 has been consumed exactly (lim == 0).
+// The callback is assumed not to touch the stream (trustcall, listed as assumption). In the
+// call-site assertions $0, $1, $2 are the arguments itype, name, value passed to f.
+//
+//@ func (*qpackDecoder).decode(qd, st, f) (err)
+//@   requires st != nil && st.stream != nil
+//@   ensures  err == nil ==> st.stream == old(st.stream) && (old(st.lim) >= 0 ==> st.lim == 0) && (old(st.lim) < 0 ==> st.lim == old(st.lim))
+//@   assert at call f: requiredInsertCount == 0
+//@   assert at call f: firstByte & 0xC0 == 0xC0 || firstByte & 0xD0 == 0x50 || firstByte & 0xE0 == 0x20
+//@   assert at call f: len($1) > 0 && ($1[0] == ':' ==> !sawNonPseudo) && ($1[0] != ':' ==> sawNonPseudo)
+//@   assert at call f: firstByte & 0x80 != 0 ==> $0 == mayIndex
+//@   assert at call f: firstByte & 0xC0 == 0x40 ==> ($0 == neverIndex <==> firstByte & 0x20 != 0) && ($0 == mayIndex <==> firstByte & 0x20 == 0)
+//@   assert at call f: firstByte & 0xE0 == 0x20 ==> ($0 == neverIndex <==> firstByte & 0x10 != 0) && ($0 == mayIndex <==> firstByte & 0x10 == 0)
+//@   loop 1 invariant st.stream == old(st.stream) && st.stream != nil && (old(st.lim) >= 0 ==> st.lim >= 0) && (old(st.lim) < 0 ==> st.lim == old(st.lim))
+//@   loop 1 invariant requiredInsertCount == 0
+//@   loop 1 step atiter(sawNonPseudo) ==> sawNonPseudo
+//@   loop 1 modifies st.lim, st.stream, st.stream.inbuf, st.stream.inbufoff
+//@   trustcall f
+//@   modifies st.lim, st.stream, st.stream.inbuf, st.stream.inbufoff
+//@   allocates
+
+// ---------------------------------------------------------------------------
+// Request/response bodies: DATA framing (C35) and Content-Length accounting (C34).
+
+// readFrameData: outside a frame it is H3_FRAME_ERROR; inside, exactly the remaining payload is
+// read (io.ReadFull, body executed), never beyond it.
+//
+//@ func (*stream).readFrameData(st) (b, err)
+//@   requires st != nil && st.stream != nil
+//@   ensures  old(st.lim) < 0 ==> isBareErr(err, errH3FrameError) && st.lim == old(st.lim)
+//@   ensures  err == nil ==> int64(len(b)) == old(st.lim) && st.lim == 0
+//@   ensures  st.stream == old(st.stream)
+//@   partial nopanic
+//@   modifies st.lim, st.stream, st.stream.inbuf, st.stream.inbufoff
+//@   allocates
+
+// bodyReaderInv: what every bodyReader.Read call needs from the previous one. While no error is
+// recorded: inside a DATA frame the payload still to come fits the declared Content-Length; a recorded io.EOF means the declared
+// length was reached (or none was declared); the stream is usable unless an error is recorded.
+//
+//@ pure
+func bodyReaderInv(r *bodyReader) bool {
+	return r != nil && r.st != nil &&
+		(r.err != nil || r.remain < 0 || r.st.lim <= 0 || r.st.lim <= r.remain) &&
+		(r.err != io.EOF || r.remain <= 0) &&
+		(r.err != nil || r.st.stream != nil)
+}
+
+// eofIsForeign: io.EOF is not one of this package's error values (it is an *errors.errorString
+// created in package io; the engine does not know the initial value of another package's
+// variable, so the fact is stated as a precondition of the top-level units that compare with it).
+//
+//@ pure
+func eofIsForeign() bool {
+	_, a := io.EOF.(http3Error)
+	_, b := io.EOF.(*connectionError)
+	_, c := io.EOF.(*streamError)
+	return !a && !b && !c && io.EOF != nil
+}
+
+// bodyReader.Read.
+// C35: the only read that produces body bytes (call-site assertion at r.st.Read) happens inside a
+// frame (lim >= 0) whose header, when read during this call, had type DATA, with a buffer clipped
+// to the payload left in that frame; so no byte outside a DATA frame payload reaches the body.
+// C34: with a declared Content-Length (remain >= 0) the bytes delivered are subtracted exactly
+// and remain never goes negative (a body is never extended beyond the declared length: a DATA
+// frame larger than remain is an error); io.EOF is returned only when remain <= 0 (a body shorter
+// than declared ends with an error, not with EOF); a recorded error is returned again unchanged.
+//
+//@ func (*bodyReader).Read(r, p) (n, err)
+//@   requires bodyReaderInv(r) && eofIsForeign()
+//@   ensures  bodyReaderInv(r)
+//@   ensures  0 <= n && n <= len(p)
+//@   ensures  old(r.err) != nil ==> err == old(r.err) && n == 0 && r.remain == old(r.remain) && r.st.lim == old(r.st.lim)
+//@   ensures  old(r.remain) >= 0 ==> r.remain == old(r.remain) - int64(n) && r.remain >= 0
+//@   ensures  old(r.remain) < 0 ==> r.remain == old(r.remain)
+//@   ensures  err == io.EOF ==> r.remain <= 0
+//@   ensures  err != nil ==> r.err == err && n == 0
+//@   ensures  err == nil && old(r.st.lim) > 0 ==> r.st.lim == old(r.st.lim) - int64(n)
+//@   assert at call Read: r.st.lim >= 0 && int64(len($b)) <= r.st.lim && (ghost(hdr) == 0 ==> old(r.st.lim) > 0) && (ghost(hdr) > 0 ==> ftype == frameTypeData)
+//@   ghost hdr += 1 after call readFrameHeader
+//@   loop 1 invariant r.st == old(r.st) && r.st.stream != nil && r.st.stream == old(r.st.stream) && r.remain == old(r.remain) && r.err == nil
+//@   loop 1 invariant ghost(hdr) == 0 ==> r.st.lim == atloop(r.st.lim)
+//@   loop 1 invariant ghost(hdr) > 0 && r.st.lim >= 0 ==> (ftype == frameTypeData && (r.remain < 0 || r.st.lim <= r.remain))
+//@   loop 1 modifies r.st.lim, r.st.stream.inbuf, r.st.stream.inbufoff
+//@   trustcall send100Continue
+//@   modifies r.err, r.remain, r.send100Continue, r.mu, r.st.lim, r.st.stream, r.st.stream.inbuf, r.st.stream.inbufoff, elems(p)
+//@   allocates
+
+// bodyReader.Close: needs a live QUIC stream (see the reported finding: after an over-read inside
+// trailers st.stream is nil and this call panics; Read does not re-establish this precondition).
+//
+//@ func (*bodyReader).Close(r) (err)
+//@   requires r != nil && r.st != nil && r.st.stream != nil
+//@   ensures  err == nil && r.remain == 0 && r.err != nil
+//@   modifies r.err, r.remain, r.mu, r.st.stream.inbuf, r.st.stream.inbufoff
+
+// sumLens: total length of the slices handed to bodyWriter.write (at most two at its call sites).
+//
+//@ pure
+func sumLens(ps [][]byte) int64 {
+	if len(ps) == 0 {
+		return 0
+	}
+	if len(ps) == 1 {
+		return int64(len(ps[0]))
+	}
+	return int64(len(ps[0])) + int64(len(ps[1]))
+}
+
+// bodyWriter.write (C34, writing side): with a declared Content-Length (remain >= 0) a write that
+// would exceed it fails with a stream error H3_INTERNAL_ERROR and writes nothing (no call of
+// writeVarint/Write: call-site assertions); otherwise remain decreases by exactly the bytes
+// written. Restricted to the call shape of Write (one slice), the only shape used while a length is
+// declared; with two slices the code subtracts the running total n after each slice, i.e. the
+// first slice twice (reported).
+//
+//@ func (*bodyWriter).write(w, ps) (n, err)
+//@   requires w != nil && w.st != nil && w.st.stream != nil && len(ps) == 1 && len(ps[0]) <= 1<<48
+//@   ensures  old(w.remain) >= 0 && sumLens(ps) > old(w.remain) ==> n == 0 && isStreamErr(err, errH3InternalError) && w.remain == old(w.remain)
+//@   ensures  old(w.remain) >= 0 && sumLens(ps) <= old(w.remain) ==> w.remain == old(w.remain) - int64(n) && w.remain >= 0 && 0 <= n && int64(n) <= sumLens(ps)
+//@   ensures  old(w.remain) < 0 ==> w.remain == old(w.remain)
+//@   ensures  err == nil ==> int64(n) == sumLens(ps)
+//@   assert at call writeVarint: w.remain < 0 || sumLens(ps) <= w.remain
+//@   assert at call writeVarint#2: $v == sumLens(ps)
+//@   loop 1 unroll 2
+//@   loop 2 unroll 2
+//@   modifies w.remain, w.st.stream.outbuf, w.st.stream.outbufoff
+//@   allocates
+
+//@ func (*bodyWriter).Write(w, p) (n, err)
+//@   requires w != nil && w.st != nil && w.st.stream != nil && len(p) <= 1<<48
+//@   ensures  old(w.remain) >= 0 && int64(len(p)) > old(w.remain) ==> n == 0 && isStreamErr(err, errH3InternalError) && w.remain == old(w.remain)
+//@   ensures  old(w.remain) >= 0 && int64(len(p)) <= old(w.remain) ==> w.remain == old(w.remain) - int64(n) && w.remain >= 0
+//@   ensures  err == nil ==> n == len(p)
+//@   modifies w.remain, w.st.stream.outbuf, w.st.stream.outbufoff
+//@   allocates
+
+// writeVarint: values above 2^62-1 panic (explicit panic in the code); every caller under
+// contract passes a frame type or a length that is within range.
+//
+//@ func (*stream).writeVarint(st, v)
+//@   requires st != nil && st.stream != nil && 0 <= v && v <= 1<<62 - 1
+//@   modifies st.stream.outbuf, st.stream.outbufoff
+//@ func (*stream).Write(st, b) (n, err)
+//@   requires st != nil && st.stream != nil
+//@   ensures  0 <= n && n <= len(b) && (err == nil ==> n == len(b))
+//@   modifies st.stream.outbuf, st.stream.outbufoff
+//@ func (*stream).Flush(st) (err)
+//@   requires st != nil && st.stream != nil
+//@   modifies st.stream.outbuf, st.stream.outbufoff
+
+// ---------------------------------------------------------------------------
+// Encoder side of the field line representations (C33): the bytes before are kept and the first
+// byte written carries the representation pattern, the T bit and the N bit that the decoder
+// contracts above read back (never-indexed flag preserved: N bit set exactly for neverIndex).
+//
+//@ func appendIndexedFieldLine(b, ttype, index) (out)
+//@   requires index >= 0 && (ttype == staticTable || ttype == dynamicTable)
+//@   ensures  len(out) > len(b) && (samebase(out, b) || fresh(out))
+//@   ensures  forall k int :: 0 <= k && k < len(b) ==> out[k] == old(b[k])
+//@   ensures  out[len(b)] & 0x80 == 0x80 && (out[len(b)] & 0x40 != 0 <==> ttype == staticTable)
+//@   ensures  index < 63 ==> len(out) == len(b) + 1 && out[len(b)] & 0x3f == byte(index)
+//@   modifies spare(b)
+//@   allocates
+//@
+//@ func appendLiteralFieldLineWithNameReference(b, ttype, itype, nameIndex, value) (out)
+//@   requires nameIndex >= 0 && (ttype == staticTable || ttype == dynamicTable) && (itype == mayIndex || itype == neverIndex)
+//@   ensures  len(out) > len(b) && (samebase(out, b) || fresh(out))
+//@   ensures  forall k int :: 0 <= k && k < len(b) ==> out[k] == old(b[k])
+//@   ensures  out[len(b)] & 0xC0 == 0x40 && (out[len(b)] & 0x10 != 0 <==> ttype == staticTable) && (out[len(b)] & 0x20 != 0 <==> itype == neverIndex)
+//@   ensures  nameIndex < 15 ==> out[len(b)] & 0x0f == byte(nameIndex)
+//@   modifies spare(b)
+//@   allocates
+//@
+//@ func appendLiteralFieldLineWithLiteralName(b, itype, name, value) (out)
+//@   requires itype == mayIndex || itype == neverIndex
+//@   ensures  len(out) > len(b) && (samebase(out, b) || fresh(out))
+//@   ensures  forall k int :: 0 <= k && k < len(b) ==> out[k] == old(b[k])
+//@   ensures  out[len(b)] & 0xE0 == 0x20 && (out[len(b)] & 0x10 != 0 <==> itype == neverIndex)
+//@   modifies spare(b)
+//@   allocates
+
+// appendPrefixedString: prefix kept, first byte = caller's flag bits, the H bit (set exactly when
+// the Huffman form is shorter) and the length prefix; a raw string is appended byte for byte.
+//
+//@ func appendPrefixedString(b, firstByte, prefixLen, s) (out)
+//@   requires 1 <= prefixLen && prefixLen <= 7 && uint64(firstByte) & (prefixMask(prefixLen + 1)) == 0
+//@   ensures  len(out) > len(b) && (samebase(out, b) || fresh(out))
+//@   ensures  forall k int :: 0 <= k && k < len(b) ==> out[k] == old(b[k])
+//@   ensures  uint64(out[len(b)]) &^ prefixMask(prefixLen + 1) == uint64(firstByte)
+//@   modifies spare(b)
+//@   allocates
